@@ -214,8 +214,11 @@ impl ShortHashMapper {
         self.regex
             .replace_all(&data, |caps: &regex::bytes::Captures| {
                 let m = caps.get(0).expect("short hash match");
-                self.translate(m.as_bytes())
-                    .unwrap_or_else(|| m.as_bytes().to_vec())
+                match self.translate(m.as_bytes()) {
+                    // An id that maps to itself stays exactly as it was written (e.g. upper-case hex).
+                    Some(new) if !new.eq_ignore_ascii_case(m.as_bytes()) => new,
+                    _ => m.as_bytes().to_vec(),
+                }
             })
             .into_owned()
     }
